@@ -35,7 +35,7 @@ def run_c13(tier, args):
     total = Batch()
     # second half: the <data> members sbeppc generates for the corpus schemas, through the generated accessors
     import eng_wire
-    wbins, _ = eng_wire.build(tier, eng_wire.tier_flavours(tier))
+    wbins, wd = eng_wire.build(tier, eng_wire.tier_flavours(tier))
 
     def chooser(t):
         if "\nengine wire" in t:
@@ -48,7 +48,7 @@ def run_c13(tier, args):
                 ("wire_checked", wbins["checked"], wn), ("wire_unchecked", wbins["unchecked"], wn // 2), ("wire_unchecked_O0", wbins["unchecked_O0"], wn // 4)]
     if tier != "quick":
         flavours += [("wire_checked_clang20", wbins["checked_clang20"], wn // 4), ("wire_unchecked_clang20", wbins["unchecked_clang20"], wn // 4)]
-    nviol = regbad
+    nviol = regbad + eng_wire.report_api_failures("C13", wd)
     herr = False
     for name, binary, cnt in flavours:
         b = run_batch(binary, "C13", tier, first, cnt, out)
